@@ -51,10 +51,61 @@ type sched struct {
 	Final   []string   `json:"final"`
 	Checks  []string   `json:"checks"`
 	Prop    string     `json:"prop"`
+	ExpectPresent []string `json:"expect_present,omitempty"`
+}
+
+type lru struct {
+	Name     string   `json:"name"`
+	Backend  string   `json:"backend"`
+	Shards   []int    `json:"shards"`
+	Limits   []int64  `json:"limits"`
+	Sizes    []int64  `json:"sizes"`
+	MaxN     int      `json:"max_n"`
+	Triggers []string `json:"triggers"`
+	Mode     string   `json:"mode"`
+}
+
+func checkC13() *checkDef {
+	return &checkDef{
+		ID: "C13", Title: "Size limit enforced by LRU eviction; cleanup removes exactly the expired", Level: "model_checking",
+		LevelText: "Exhaustive enumeration of cache populations (2-4 entries, sizes from {100,300,600} bytes, every access order, every expiry subset) x limits x shard counts x triggers (store on another shard, store on a colliding shard, janitor cycle) with the limit changed at run time through the config event, on the real code under the virtual clock; each outcome is judged by a relational reference written from the property text (nothing evicted below the limit; down to <=80% or until nothing evictable is left; stops at the target; least recently used first within a size class; cleanup removes exactly the expired). Plus all schedules (K preemptions) of a fresh overwrite racing the cleanup scan/removal.",
+		LevelNote: "Trusted: instrumenter, virtual clock (1 microsecond tick per Now()), harness view of the entry maps. Entries sharing the triggering store's shard lock are exempt as the property allows. The size-weight constant is deliberately not part of the reference.",
+		Technique: "explicit-state enumeration of populations/triggers on the implementation against a relational reference model + preemption-bounded schedule enumeration",
+		DesignRef: "DESIGN.md section 4 C13, appendix B4",
+		Rule:        "all (sizes, access permutation | expiry subset, limit, shard count, trigger) tuples; distinct by tuple; non-trivial = distinct evicted-set outcome",
+		Assumptions: commonAssumptions,
+		Runs: func(tier string) []run {
+			maxN, k := 4, 2
+			shards := []int{1, 2, 32}
+			if tier == "thorough" {
+				k = 3
+			}
+			var ls []lru
+			for _, be := range []string{"memory", "file"} {
+				ls = append(ls, lru{Name: "evict/" + be, Backend: be, Shards: shards, Limits: []int64{1000, 2000}, Sizes: []int64{100, 300, 600}, MaxN: maxN, Triggers: []string{"store", "store-colliding", "tick"}, Mode: "evict"})
+				ls = append(ls, lru{Name: "cleanup/" + be, Backend: be, Shards: shards, Limits: []int64{1 << 40}, Sizes: []int64{100, 300}, MaxN: maxN, Triggers: []string{"tick"}, Mode: "cleanup"})
+			}
+			var ps []sched
+			for _, be := range []string{"memory", "file"} {
+				for _, sh := range []int{1, 32} {
+					base := cp{Backend: be, Shards: sh, Limit: 100000, Interval: 1000}
+					name := func(s string) string { return s + "/" + be + "/shards=" + itoa(sh) }
+					ps = append(ps, sched{Name: name("fresh-overwrite-vs-cleanup"), cp: base, Prop: "C13",
+						Init: []string{"Se:a:40", "Se:c:30", "T"}, Threads: [][]string{{"S:a:20"}}, Final: []string{"Q"}, ExpectPresent: []string{"a"}})
+					ps = append(ps, sched{Name: name("revalidate-vs-cleanup"), cp: base, Prop: "C13",
+						Init: []string{"Se:a:40", "T"}, Threads: [][]string{{"U:a"}, {"G:c"}}, Final: []string{"Q"}})
+				}
+			}
+			return []run{
+				{Pkg: "./cache", Scenario: "cache/lru", Params: ls},
+				{Pkg: "./cache", Scenario: "cache/sched", Params: ps, K: k, E: 1, Horizon: 5000},
+			}
+		},
+	}
 }
 
 func allChecks() []*checkDef {
-	return []*checkDef{checkC01(), checkC12(), checkC14()}
+	return []*checkDef{checkC01(), checkC12(), checkC13(), checkC14()}
 }
 
 type seq struct {
